@@ -999,6 +999,13 @@ class Corr(Cov):
     corr = True
 
 
+def _single_rows_root(expr):
+    # Whether all row operands of a length preserving operation provably have
+    # the same rows
+    frames = _row_operands(expr)
+    return bool(frames) and len({_rows_root(e)._name for e in frames}) == 1
+
+
 class Len(Reduction):
     reduction_chunk = staticmethod(len)
     reduction_aggregate = sum
@@ -1007,7 +1014,11 @@ class Len(Reduction):
         from dask_expr.io.io import IO
 
         # We introduce Index nodes sometimes.  We special case around them.
-        if isinstance(self.frame, Index) and self.frame.frame._is_length_preserving:
+        if (
+            isinstance(self.frame, Index)
+            and self.frame.frame._is_length_preserving
+            and _single_rows_root(self.frame.frame)
+        ):
             return Len(self.frame.frame)
 
         # Pass through Elemwises, unless we just introduced an Index
@@ -1015,9 +1026,8 @@ class Len(Reduction):
             # Operands that are broadcast don't contribute rows; the others must
             # provably have the same rows, a binary operation aligns the indexes
             # of e.g. a filtered operand with an unfiltered one
-            frames = _row_operands(self.frame)
-            if frames and len({_rows_root(expr)._name for expr in frames}) == 1:
-                return Len(frames[0])
+            if _single_rows_root(self.frame):
+                return Len(_row_operands(self.frame)[0])
 
         # Let the child handle it.  They often know best
         if isinstance(self.frame, IO):
